@@ -95,6 +95,7 @@ template<class V> static void run(const VpCase* c, VpOutcome* o) {
     typedef typename V::mask M;
     const unsigned W = V::width;
     V a = mk<V>(c->v[0]), b = mk<V>(c->v[1]);
+    poison_below(c->v[0][0] ^ c->op);
     M m;
     switch (c->op) {
     case OP_EQ: m = (a == b); break;
